@@ -62,7 +62,7 @@ type c13PipeCase struct {
 func genC13Pipe(t *rapid.T) *c13PipeCase {
 	c := &c13PipeCase{Kind: rapid.SampledFrom([]string{"encode", "encode", "encode", "decode-vp8gen"}).Draw(t, "kind")}
 	if c.Kind == "encode" {
-		c.Img = gen.DrawImg(t, gen.ImgCfg{MaxSide: 56, BigChance: 3, BigSide: 130, Kinds: []string{"nrgba", "nrgba", "rgba", "generic", "gray", "ycbcr420"}})
+		c.Img = gen.DrawImg(t, gen.ImgCfg{MaxSide: 56, BigChance: 3, BigSide: 130, ThinPermille: 30, Kinds: []string{"nrgba", "nrgba", "rgba", "generic", "gray", "ycbcr420"}})
 		if rapid.IntRange(0, 2).Draw(t, "lossless") == 0 {
 			c.Opts = gen.DrawLosslessOpts(t)
 		} else {
@@ -142,8 +142,16 @@ func genC13Kern(t *rapid.T) *c13KernCase {
 		Seed:   rapid.Uint64().Draw(t, "seed"),
 		Mode:   rapid.IntRange(0, 9).Draw(t, "mode"),
 		Thresh: rapid.IntRange(0, 255).Draw(t, "thresh"),
-		Width:  rapid.IntRange(1, 70).Draw(t, "width"),
+		Width:  drawKernWidth(t),
 	}
+}
+
+// drawKernWidth: row widths around the SIMD loop strides and the on-stack scratch sizes.
+func drawKernWidth(t *rapid.T) int {
+	if rapid.IntRange(0, 4).Draw(t, "widthClass") == 0 {
+		return rapid.SampledFrom([]int{255, 256, 257, 1023, 1024, 1025, 2047, 2048, 2049, 2050, 4095, 4096, 4097, 6145, 8193}).Draw(t, "widthBig")
+	}
+	return rapid.IntRange(1, 70).Draw(t, "width")
 }
 
 func kernBytes(r *gen.Rng, class string, n int) []byte {
